@@ -188,16 +188,29 @@ Section UtlruBridge.
     - rewrite iter_eqb_neq by (apply S; left; auto). f_equal. apply IH. eapply sep_tail; eauto.
   Qed.
 
+  (* one turn of a `while (c) { body }` loop with break: test, then body; (false, b) = the loop is left in state b.
+     whileB only ever runs C and B in this combination, so a loop is characterised by what `turn C B` computes —
+     whether the source tests everything in the loop condition, or tests part of it in the body and breaks *)
+  Definition turn {St} (c : St -> res bool) (f : St -> res (bool * St)) (b : St) : res (bool * St) :=
+    do t <- c b; if t then f b else Ok (false, b).
+  Lemma whileB_turn {St} n c f (b : St) :
+    whileB (S n) c f b = (do r <- turn c f b; let '(go, b1) := r in if go then whileB n c f b1 else Ok b1).
+  Proof.
+    cbn [whileB]. unfold turn. destruct (c b) as [[|]|]; cbn [bind]; auto.
+  Qed.
+
+  (* what one turn of the loop of do_ttl_position computes (up to the reason for UB): at begin() stop; otherwise look at
+     the node before position: if it expires later than expire_time step onto it and go on, else stop *)
+  Definition walk_turn (ex : Z) (s2 : ttll K V) (ps : iter) : res (bool * (ttll K V * iter)) :=
+    if iter_eqb ps (nl_begin (tt_ord s2)) then Ok (false, (s2, ps)) else
+    do it <- nl_prev (tt_ord s2) ps; do d <- nl_deref (tt_ord s2) it;
+    do e <- vget "m_elements[]" (tt_elems s2) d;
+    if (ex <? te_expire e)%Z then Ok (true, (s2, it)) else Ok (false, (s2, ps)).
+
   Section Walk.
     Variable ex : Z.
     Variables (C : ttll K V * iter -> res bool) (B : ttll K V * iter -> res (bool * (ttll K V * iter))).
-    Hypothesis HC : forall s2 ps, C (s2, ps) =
-      (do c <- (if negb (iter_eqb ps (nl_begin (tt_ord s2))) then
-                  (do it <- nl_prev (tt_ord s2) ps; do d <- nl_deref (tt_ord s2) it;
-                   do r <- vref (tt_elems s2) d; do e <- vget "m_elements[]" (tt_elems s2) r;
-                   Ok (ex <? te_expire e)%Z)
-                else Ok false); Ok c).
-    Hypothesis HB : forall s2 ps, B (s2, ps) = (do it <- nl_prev (tt_ord s2) ps; Ok (true, (s2, it))).
+    Hypothesis HT : forall s2 ps, req (turn C B (s2, ps)) (walk_turn ex s2 ps).
 
     Lemma ttl_walk (s : ttll K V) : NoDup (map snd (tt_ord s)) ->
       forall a b f, tt_ord s = a ++ b -> List.length a < f ->
@@ -208,18 +221,18 @@ Section UtlruBridge.
         end.
     Proof.
       intros N. induction a as [|[z x] a IH] using rev_ind; intros b f Eo Lf.
-      - destruct f as [|f]; [simpl in Lf; lia|]. cbn [whileB]. rewrite HC. rewrite Eo. cbn [app].
-        rewrite iter_eqb_refl. cbn [negb bind]. split; auto. exists [], []. split; auto.
+      - destruct f as [|f]; [simpl in Lf; lia|]. rewrite whileB_turn.
+        pose proof (HT s (nl_begin b)) as Ht. unfold walk_turn in Ht. cbn [app] in Eo. rewrite Eo in Ht.
+        rewrite iter_eqb_refl in Ht. apply req_ok in Ht. rewrite Ht. cbn [bind]. split; auto. exists [], []. split; auto.
       - rewrite app_length in Lf. cbn [List.length] in Lf.
-        destruct f as [|f]; [lia|]. cbn [whileB]. rewrite HC, HB. rewrite <- app_assoc in Eo. cbn [app] in Eo.
-        rewrite Eo. rewrite Eo in N.
-        rewrite (nl_begin_app_neq a z x b N). cbn [negb]. rewrite (nl_prev_app a z x b N). cbn [bind].
-        rewrite nl_deref_in by (rewrite map_app; apply in_or_app; right; left; auto). cbn [bind].
-        rewrite rev_unit. cbn [walk_emplace]. unfold vref, vget.
-        destruct (nth_error (tt_elems s) x) as [e|] eqn:Nx; cbn [bind].
-        2:{ intros n. eexists. reflexivity. }
-        rewrite Nx. cbn [bind].
-        destruct (ex <? te_expire e)%Z; cbn [bind].
+        destruct f as [|f]; [lia|]. rewrite whileB_turn. rewrite <- app_assoc in Eo. cbn [app] in Eo.
+        pose proof (HT s (nl_begin b)) as Ht. unfold walk_turn in Ht. rewrite Eo in Ht. rewrite Eo in N.
+        rewrite (nl_begin_app_neq a z x b N) in Ht. rewrite (nl_prev_app a z x b N) in Ht. cbn [bind] in Ht.
+        rewrite nl_deref_in in Ht by (rewrite map_app; apply in_or_app; right; left; auto). cbn [bind] in Ht.
+        rewrite rev_unit. cbn [walk_emplace]. unfold vget in *.
+        destruct (nth_error (tt_elems s) x) as [e|] eqn:Nx; cbn [bind] in *.
+        2:{ destruct (turn C B (s, nl_begin b)); simpl in Ht; [contradiction|]. cbn [bind]. intros n. eexists. reflexivity. }
+        destruct (ex <? te_expire e)%Z; cbn [bind]; apply req_ok in Ht; rewrite Ht; cbn [bind].
         + specialize (IH ((z, x) :: b) f Eo ltac:(lia)).
           change (It x) with (nl_begin ((z, x) :: b)).
           destruct (whileB f C B (s, nl_begin ((z, x) :: b))) as [[s1 ps]|].
@@ -233,7 +246,19 @@ Section UtlruBridge.
     Qed.
   End Walk.
 
-  (* the form used at the two call sites *)
+  Lemma walk_emplace_ext (es es' : list (telem K V)) e n : forall r,
+    (forall x, In x (map snd r) -> nth_error es' x = nth_error es x) ->
+    walk_emplace es' e n r = walk_emplace es e n r.
+  Proof.
+    induction r as [|[z x] r IH]; intros Hx; cbn [walk_emplace]; auto.
+    unfold vget. rewrite (Hx x) by (left; auto). destruct (nth_error es x); cbn [bind]; auto.
+    rewrite IH; auto. intros y Iy. apply Hx. right; auto.
+  Qed.
+
+  (* the generated do_ttl_position, whatever the shape of its loop: one turn of it is walk_turn.  Shown by case analysis
+     on what a turn looks at (is position begin(), the node before it, the slot it names, and the comparison of the
+     two time points AS A PROPOSITION), so `a > b`, `!(a <= b)`, a test in the loop condition or an `if (..) break;`
+     in the body all end in the same cases *)
   Lemma g_do_ttl_position_ok (s : ttll K V) ex : NoDup (map snd (tt_ord s)) ->
     match g_do_ttl_position s ex with
     | Ok (s1, ps) => s1 = s /\ forall n, exists r, walk_emplace (tt_elems s) ex n (rev (tt_ord s)) = Ok r /\
@@ -241,14 +266,40 @@ Section UtlruBridge.
     | UB _ => forall n, exists w, walk_emplace (tt_elems s) ex n (rev (tt_ord s)) = UB w
     end.
   Proof.
-    intros N. unfold g_do_ttl_position.
+    intros N. unfold g_do_ttl_position. cbv zeta.
     match goal with |- context [whileB ?f ?C ?B _] =>
-      pose proof (ttl_walk ex C B (fun _ _ => eq_refl) (fun _ _ => eq_refl) s N (tt_ord s) [] f (eq_sym (app_nil_r _)) (Nat.lt_succ_diag_r _)) as W end.
+      assert (HT : forall s2 ps, req (turn C B (s2, ps)) (walk_turn ex s2 ps));
+      [ | pose proof (ttl_walk ex C B HT s N (tt_ord s) [] f (eq_sym (app_nil_r _)) (Nat.lt_succ_diag_r _)) as W; clear HT ] end.
+    { clear. intros s2 ps. unfold turn, walk_turn. cbv beta iota zeta.
+      destruct (iter_eqb ps (nl_begin (tt_ord s2))); cbn [negb andb orb bind]; [apply req_refl|].
+      destruct (nl_prev (tt_ord s2) ps) as [it|]; cbn [negb andb orb bind]; [|simpl; auto].
+      destruct (nl_deref (tt_ord s2) it) as [d|]; cbn [negb andb orb bind]; [|simpl; auto].
+      unfold vref, vget. destruct (nth_error (tt_elems s2) d) as [e|] eqn:Nx; cbn [negb andb orb bind];
+        rewrite ?Nx; cbn [negb andb orb bind]; rewrite ?Nx; cbn [negb andb orb bind]; [|simpl; auto].
+      zcases; cbn [negb andb orb bind]; apply req_refl. }
     cbn [nl_begin nl_names map l_begin] in W. revert W.
     destruct (whileB _ _ _ _) as [[s1 ps]|]; cbn [bind]; auto.
     intros (Es & a1 & a2 & Ea & Ep & Hw). split; auto. intros n. eexists. split; [apply Hw|].
     rewrite rev_app_distr. cbn [rev]. rewrite !rev_involutive. rewrite <- app_assoc. cbn [app].
     rewrite app_nil_r in Ep. subst ps. rewrite Ea. apply nl_emplace_app. rewrite <- Ea. exact N.
+  Qed.
+
+  (* the form used at the two call sites: the state st the source calls do_ttl_position on is compared with the
+     elements es and the list o the literal machine walks over; they need to agree only on the slots named in o
+     (so it does not matter at which point between the writes to the new element the source looks the position up) *)
+  Lemma g_do_ttl_position_at (es : list (telem K V)) (o : list (Z * nat)) (st : ttll K V) ex :
+    NoDup (map snd o) -> tt_ord st = o -> (forall x, In x (map snd o) -> nth_error (tt_elems st) x = nth_error es x) ->
+    match g_do_ttl_position st ex with
+    | Ok (s1, ps) => s1 = st /\ forall n, exists r, walk_emplace es ex n (rev o) = Ok r /\ nl_emplace o ps n = Ok (rev r, n)
+    | UB _ => forall n, exists w, walk_emplace es ex n (rev o) = UB w
+    end.
+  Proof.
+    intros N Eo Ag. subst o. pose proof (g_do_ttl_position_ok st ex N) as W.
+    assert (WE : forall n, walk_emplace (tt_elems st) ex n (rev (tt_ord st)) = walk_emplace es ex n (rev (tt_ord st))).
+    { intros n. apply walk_emplace_ext. intros x Ix. apply Ag. rewrite map_rev in Ix. apply in_rev in Ix. exact Ix. }
+    destruct (g_do_ttl_position st ex) as [[s1 ps]|].
+    - destruct W as (Es & W). split; auto. intros n. destruct (W n) as (r & Ew & Ee). exists r. rewrite <- WE. auto.
+    - intros n. destruct (W n) as (w & Ew). exists w. rewrite <- WE. exact Ew.
   Qed.
 
   Lemma vget_upd A w (l : list A) i x : i < List.length l -> vget w (upd_nth i x l) i = Ok x.
@@ -264,41 +315,70 @@ Section UtlruBridge.
     rewrite map_snd_ord_remove. apply nodup_remove_nat.
   Qed.
 
+  Lemma vref_lt A (l : list A) i : i < List.length l -> vref l i = Ok i.
+  Proof. intros L. apply vref_inv. auto. Qed.
+  Lemma vget_nth A w (l : list A) i a : nth_error l i = Some a -> vget w l i = Ok a.
+  Proof. apply vget_inv. Qed.
+
+  (* ---- do_update / do_insert: the generated straight-line code is run one statement at a time, whatever statement is
+     next (hstep looks at the HEAD of the generated program only); the call of do_ttl_position is met wherever the
+     source places it among the writes to the element (ttl_split), and its result is remembered as a fact about
+     nl_emplace (used when the emplace is met).  A named local for a sub-expression is a `let`, reduced on the way ---- *)
+  Ltac hstep :=
+    lazymatch goal with
+    | |- req (bind (vref ?l ?i) _) _ => rewrite (vref_lt _ l i) by (rewrite ?upd_nth_length; assumption)
+    | |- req (bind (vget ?w (upd_nth ?i ?x ?l) ?i) _) _ => rewrite (vget_upd _ w l i x) by assumption
+    | |- req (bind (vget ?w ?l ?i) _) _ =>
+        match goal with Nx : nth_error l i = Some ?a |- _ => rewrite (vget_nth _ w l i a Nx) end
+    | |- req (bind (vset ?w (upd_nth ?i ?x ?l) ?i ?y) _) _ => rewrite (vset_upd _ w l i x y) by assumption
+    | |- req (bind (vset ?w ?l ?i ?y) _) _ => rewrite (vset_lt _ w l i y) by assumption
+    | |- req (bind (opt_node (Some _)) _) _ => cbn [opt_node]
+    | |- req (bind (nl_erase ?o (It ?n)) _) _ =>
+        rewrite (nl_erase_unf o (It n)); cbv iota; match goal with E : ord_has n o = _ |- _ => rewrite E end
+    | |- req (bind (nl_emplace ?o ?p ?n) _) _ =>
+        match goal with E : nl_emplace o p n = Ok _ |- _ => rewrite E end
+    end; cbn [bind]; proj.
+  (* the head of the generated program is the call of do_ttl_position on the state st; the literal machine walks over
+     (es, o): split on the result (g_do_ttl_position_at); `agree` shows that st and es agree on the slots named in o *)
+  Ltac ttl_split idx Nd agree :=
+    match goal with |- req (bind (g_do_ttl_position ?st ?ex) _) ?R =>
+      match R with context [walk_emplace ?es ex idx (rev ?o)] =>
+        let Ag := fresh "Ag" in let W := fresh "W" in
+        assert (Ag : forall x, In x (map snd o) -> nth_error (tt_elems st) x = nth_error es x) by agree;
+        pose proof (g_do_ttl_position_at es o st ex Nd eq_refl Ag) as W; clear Ag;
+        let s' := fresh "s'" in let ps := fresh "ps" in
+        destruct (g_do_ttl_position st ex) as [[s' ps]|]; cbn [bind];
+        [ let r := fresh "r" in let Ew := fresh "Ew" in let Ee := fresh "Ee" in
+          destruct W as (-> & W); destruct (W idx) as (r & Ew & Ee); clear W; rewrite Ew; cbn [bind]; proj
+        | let w := fresh "w" in let Ew := fresh "Ew" in destruct (W idx) as (w & Ew); rewrite Ew; cbn [bind req]; exact I ]
+      end
+    end.
+  (* both sides have come to do_access: the states are equal up to the way the fields were written *)
+  Ltac access_tail :=
+    match goal with |- req (bind (g_do_access ?st ?i) _) (tt_access ?st' _) =>
+      let Q := fresh "Q" in assert (Q : st = st') by (norm; first [reflexivity | f_equal; lia]); rewrite Q; clear Q;
+      let P := fresh "P" in pose proof (g_do_access_ok st' i) as P; norm;
+      rewrite vget_upd in P by assumption; cbn [bind] in P; revert P; unfold req, bind; crush; finish
+    end.
+
   Lemma g_do_update_ok (s : ttll K V) k idx v ex :
     assoc k (tt_index s) = Some idx -> NoDup (map snd (tt_ord s)) ->
     req (g_do_update s (Some k) v ex) (tt_do_update true s idx v ex).
   Proof.
-    intros A N. unfold g_do_update, tt_do_update, mit_second. rewrite A. cbn [bind]. unfold vref.
+    intros A N. unfold g_do_update, tt_do_update, mit_second. rewrite A. cbn [bind].
     destruct (nth_error (tt_elems s) idx) as [e0|] eqn:Nx.
-    2:{ unfold vget. rewrite Nx. simpl. auto. }
+    2:{ unfold vref, vget. rewrite Nx. simpl. auto. }
     assert (L : idx < List.length (tt_elems s)) by (apply nth_error_Some; congruence).
-    cbn [bind]. rewrite !(proj2 (vget_inv _ _ _ _) Nx). cbn [bind].
-    rewrite !vset_lt by auto. cbn [bind]. proj. rewrite vget_upd by auto. cbn [bind]. rewrite vset_upd by auto. cbn [bind]. proj.
-    rewrite vget_upd by auto. cbn [bind]. proj.
-    destruct (te_ttl e0) as [n|] eqn:Et; [|simpl; auto]. cbn [opt_node bind]. rewrite nl_erase_unf. unfold ord_erase.
-    destruct (ord_has n (tt_ord s)) eqn:Eh; [|simpl; auto]. cbn [bind].
-    unfold set_te_val, set_te_expire. proj. rewrite Et.
-    match goal with |- req (bind (g_do_ttl_position ?st _) _) _ => pose proof (g_do_ttl_position_ok st ex) as W end.
-    proj. specialize (W ltac:(rewrite map_snd_ord_remove; apply nodup_remove_nat; exact N)).
-    unfold ord_emplace. revert W.
-    destruct (g_do_ttl_position _ _) as [[s98 r99]|]; cbn [bind].
-    2:{ intros W. destruct (W idx) as (w & Ew). rewrite Ew. simpl. auto. }
-    intros (Es & W). subst s98. destruct (W idx) as (r & Ew & Ee). proj. rewrite Ew, Ee. cbn [bind]. proj.
-    rewrite vget_upd by auto. cbn [bind]. rewrite !vset_upd by auto. cbn [bind].
-    match goal with |- req (bind (g_do_access ?st ?i) _) _ => pose proof (g_do_access_ok st i) as P end.
-    unfold set_tt_elems, set_tt_ord, set_te_ttl in *. proj.
-    rewrite vget_upd in P by auto. cbn [bind] in P.
-    revert P. unfold req, bind. crush; finish.
-  Qed.
-
-
-  Lemma walk_emplace_ext (es es' : list (telem K V)) e n : forall r,
-    (forall x, In x (map snd r) -> nth_error es' x = nth_error es x) ->
-    walk_emplace es' e n r = walk_emplace es e n r.
-  Proof.
-    induction r as [|[z x] r IH]; intros Hx; cbn [walk_emplace]; auto.
-    unfold vget. rewrite (Hx x) by (left; auto). destruct (nth_error es x); cbn [bind]; auto.
-    rewrite IH; auto. intros y Iy. apply Hx. right; auto.
+    destruct e0 as [xe xk xl xt xv].
+    (* the literal machine up to its ord_emplace *)
+    rewrite (vget_nth _ "m_elements[element_idx]" _ _ _ Nx). cbn [bind]. proj.
+    rewrite (vset_lt _ "m_elements[element_idx]" (tt_elems s)) by exact L. cbn [bind].
+    rewrite (vset_upd _ "m_elements[element_idx]" (tt_elems s)) by exact L. cbn [bind].
+    unfold ord_erase, ord_emplace.
+    destruct xt as [n|]; [destruct (ord_has n (tt_ord s)) eqn:Eh|]; cbn [bind]; repeat hstep; try (simpl; auto; fail).
+    assert (Nd : NoDup (map snd (ord_remove n (tt_ord s)))) by (rewrite map_snd_ord_remove; apply nodup_remove_nat; exact N).
+    ttl_split idx Nd ltac:(intros; reflexivity).
+    repeat hstep. access_tail.
   Qed.
 
   Definition after_prune_ok (s : ttll K V) (k : K) (now : Z) : Prop :=
@@ -323,36 +403,21 @@ Section UtlruBridge.
       apply req_bind; [apply req_refl|]. intros idx Ed. specialize (F1 idx Ed).
       unfold umap_emplace. rewrite A1.
       apply req_bind; [apply req_refl|]. intros ix Ex. proj.
-      unfold vref.
+      unfold ord_emplace. cbv iota.
       destruct (nth_error (tt_elems s1) idx) as [e0|] eqn:Nx.
-      2:{ cbn [bind]. apply nth_error_None in Nx. unfold vset. apply Nat.ltb_ge in Nx. rewrite Nx.
-          destruct (ord_emplace _ _ _ _ _ _); simpl; auto. }
+      2:{ (* *m_lru_end is not a slot: both sides are undefined, wherever the source calls do_ttl_position *)
+          try ttl_split idx N1 ltac:(intros; reflexivity).
+          all: unfold vref; rewrite Nx; cbn [bind].
+          all: apply nth_error_None in Nx; unfold vset; apply Nat.ltb_ge in Nx; rewrite Nx.
+          all: try destruct (walk_emplace _ _ _ _); simpl; auto. }
       assert (L : idx < List.length (tt_elems s1)) by (apply nth_error_Some; congruence).
-      cbn [bind]. rewrite (proj2 (vget_inv _ _ _ _) Nx). cbn [bind].
-      rewrite vset_lt by auto. cbn [bind]. proj.
-      rewrite vget_upd by auto. cbn [bind]. rewrite vset_upd by auto. cbn [bind]. proj.
-      rewrite vget_upd by auto. cbn [bind]. rewrite vset_upd by auto. cbn [bind]. proj.
-      unfold set_te_val, set_te_expire, set_te_lru. proj.
-      match goal with |- req (bind (g_do_ttl_position ?st _) _) _ => pose proof (g_do_ttl_position_ok st ex) as W end.
-      proj. specialize (W N1). unfold ord_emplace. revert W.
-      match goal with |- context [walk_emplace (upd_nth idx ?c (tt_elems s1)) ex _ (rev (tt_ord s1))] =>
-        assert (WE : forall n, walk_emplace (upd_nth idx c (tt_elems s1)) ex n (rev (tt_ord s1)) = walk_emplace (tt_elems s1) ex n (rev (tt_ord s1))) end.
-      { intros n. apply walk_emplace_ext. intros x Ix. apply nth_error_upd_neq. intros Ex'. subst x.
-        apply F1. rewrite map_rev in Ix. apply in_rev in Ix. exact Ix. }
-      destruct (g_do_ttl_position _ _) as [[s98 r99]|]; cbn [bind].
-      2:{ intros W. destruct (W idx) as (w & Ew). rewrite WE in Ew. rewrite Ew. simpl. auto. }
-      intros (Es & W). subst s98. destruct (W idx) as (r & Ew & Ee). proj. rewrite WE in Ew. rewrite Ew, Ee. cbn [bind]. proj.
-      rewrite vget_upd by auto. cbn [bind]. rewrite vset_upd by auto. cbn [bind]. proj.
-      rewrite vget_upd by auto. cbn [bind]. rewrite vset_upd by auto. cbn [bind]. proj.
-      rewrite vset_lt by auto. cbn [bind].
+      rewrite (vset_lt _ "m_elements[element_idx]" (tt_elems s1)) by exact L.
+      repeat hstep.
+      ttl_split idx N1 ltac:(intros x Ix; first [reflexivity | apply nth_error_upd_neq; intros Ex'; subst x; exact (F1 Ix)]).
+      repeat hstep.
       apply req_bind; [apply req_refl|]. intros ne En. proj.
       (* the state handed to do_access is the literal machine's, up to the way m_used_size + 1 is written *)
-      match goal with |- req (bind (g_do_access ?st _) _) (tt_access ?st' _) =>
-        let Q := fresh "Q" in assert (Q : st = st') by (norm; first [reflexivity | f_equal; lia]); rewrite Q; clear Q end.
-      match goal with |- req (bind (g_do_access ?st ?i) _) _ => pose proof (g_do_access_ok st i) as P end.
-      norm.
-      rewrite vget_upd in P by auto. cbn [bind] in P.
-      revert P. unfold req, bind. crush; finish.
+      access_tail.
   Qed.
 
   Lemma g_do_insert_update_ok (s : ttll K V) k v now ex a :
